@@ -157,19 +157,21 @@ def _nu_arg(nu0, nu1, kind, T):
     return lambda t, a=nu0, b=nu1, T=T: a + t / T * (b - a)
 
 
-def run_native(prog, return_names=False, rescale=1.0, upto=None, swipe_at=None):
+def run_native(prog, return_names=False, rescale=1.0, upto=None, swipe_at=None, named=False):
     """Execute the program with dadi primitives. rescale=c re-expresses it relative to a reference size c times larger.
     upto=t stops the program t time units (of 2*N0 generations) before its end (the program truncated at that time).
     A frozen (ancient-sample) population is given the size its parent had when it was sampled; that number only enters the
     time-step rule.
     swipe_at=t (only while a single population exists): the history before t time units ago is replaced by equilibrium at the size
-    the population had at that time."""
+    the population had at that time.
+    named=True passes deme_ids (the program's own population names) to every primitive that accepts them."""
     import dadi
     from dadi import Integration, PhiManip, Numerics
     c = rescale
     xx = Numerics.default_grid(prog['pts'])
     theta = prog['theta'] / c
-    phi = PhiManip.phi_1D(xx, nu=c, theta0=theta)
+    ids = (lambda nm: dict(deme_ids=list(nm))) if named else (lambda nm: {})
+    phi = PhiManip.phi_1D(xx, nu=c, theta0=theta, **ids(['p0']))
     names = ['p0']
     frozen = [False]
     last_nu = [1.0]            # size of each axis at the end of the previous step (unscaled)
@@ -196,23 +198,15 @@ def run_native(prog, return_names=False, rescale=1.0, upto=None, swipe_at=None):
                 raise ValueError('swipe_at must fall while a single population exists')
             a, b, kind = it['sizes'][0]
             t_init = togo - swipe_at           # part of this step that is swiped away
-            phi = PhiManip.phi_1D(xx, nu=_size_after(a, b, kind, t_init / it['T']) * c, theta0=theta)
+            # at an epoch boundary the size "at that time" is the older epoch's end size (demes' epochs are (start, end])
+            nu_eq = last_nu[0] if t_init <= 1e-12 else _size_after(a, b, kind, t_init / it['T'])
+            phi = PhiManip.phi_1D(xx, nu=nu_eq * c, theta0=theta)
             swiped = True
         ev = s['event']
         k = len(names)
         if ev:
             if ev['op'] in ('branch', 'split'):
                 p = ev['parent']
-                if k == 1:
-                    phi = PhiManip.phi_1D_to_2D(xx, phi)
-                elif k == 2:
-                    phi = [PhiManip.phi_2D_to_3D_split_1, PhiManip.phi_2D_to_3D_split_2][p](xx, phi)
-                elif k == 3:
-                    pr = [1.0 if i == p else 0.0 for i in range(3)]
-                    phi = PhiManip.phi_3D_to_4D(phi, pr[0], pr[1], xx, xx, xx, xx)
-                else:
-                    pr = [1.0 if i == p else 0.0 for i in range(4)]
-                    phi = PhiManip.phi_4D_to_5D(phi, pr[0], pr[1], pr[2], xx, xx, xx, xx, xx)
                 if ev['op'] == 'split':
                     names[p] = 'p%d' % counter
                     counter += 1
@@ -220,6 +214,16 @@ def run_native(prog, return_names=False, rescale=1.0, upto=None, swipe_at=None):
                 counter += 1
                 frozen.append(bool(ev.get('ancient')))
                 last_nu.append(last_nu[p])
+                if k == 1:
+                    phi = PhiManip.phi_1D_to_2D(xx, phi, **ids(names))
+                elif k == 2:
+                    phi = [PhiManip.phi_2D_to_3D_split_1, PhiManip.phi_2D_to_3D_split_2][p](xx, phi, **ids(names))
+                elif k == 3:
+                    pr = [1.0 if i == p else 0.0 for i in range(3)]
+                    phi = PhiManip.phi_3D_to_4D(phi, pr[0], pr[1], xx, xx, xx, xx, **ids(names))
+                else:
+                    pr = [1.0 if i == p else 0.0 for i in range(4)]
+                    phi = PhiManip.phi_4D_to_5D(phi, pr[0], pr[1], pr[2], xx, xx, xx, xx, xx, **ids(names))
                 if ev['op'] == 'split' and p != k - 1:
                     # move the first child from the parent's slot to the last-but-one position
                     order = [i for i in range(k + 1) if i != p]
@@ -230,16 +234,16 @@ def run_native(prog, return_names=False, rescale=1.0, upto=None, swipe_at=None):
                     last_nu = [last_nu[i] for i in order]
             elif ev['op'] == 'admix':
                 pr = ev['props']
-                if k == 2:
-                    phi = PhiManip.phi_2D_to_3D_admix(phi, pr[0], xx, xx, xx)
-                elif k == 3:
-                    phi = PhiManip.phi_3D_to_4D(phi, pr[0], pr[1], xx, xx, xx, xx)
-                else:
-                    phi = PhiManip.phi_4D_to_5D(phi, pr[0], pr[1], pr[2], xx, xx, xx, xx, xx)
                 names.append('p%d' % counter)
                 counter += 1
                 frozen.append(False)
                 last_nu.append(1.0)
+                if k == 2:
+                    phi = PhiManip.phi_2D_to_3D_admix(phi, pr[0], xx, xx, xx, **ids(names))
+                elif k == 3:
+                    phi = PhiManip.phi_3D_to_4D(phi, pr[0], pr[1], xx, xx, xx, xx, **ids(names))
+                else:
+                    phi = PhiManip.phi_4D_to_5D(phi, pr[0], pr[1], pr[2], xx, xx, xx, xx, xx, **ids(names))
                 if ev['merge']:
                     for i in reversed([i for i in range(k) if pr[i] > 0]):
                         phi = PhiManip.remove_pop(phi, xx, i + 1)
@@ -266,7 +270,7 @@ def run_native(prog, return_names=False, rescale=1.0, upto=None, swipe_at=None):
         sizes = [[last_nu[i], last_nu[i], 'constant'] if frozen[i] else it['sizes'][i] for i in range(k)]
         nus = [_nu_arg(a * c, b * c, kind, Tfull) for a, b, kind in sizes]
         if k == 1:
-            phi = Integration.one_pop(phi, xx, T, nu=nus[0], theta0=theta, frozen=frozen[0], initial_t=t_init * c)
+            phi = Integration.one_pop(phi, xx, T, nu=nus[0], theta0=theta, frozen=frozen[0], initial_t=t_init * c, **ids(names))
         else:
             kw = {}
             for i in range(k):
@@ -276,6 +280,7 @@ def run_native(prog, return_names=False, rescale=1.0, upto=None, swipe_at=None):
                     if i != j:
                         kw['m%d%d' % (i + 1, j + 1)] = it['mig'][i][j] / c
             f = {2: Integration.two_pops, 3: Integration.three_pops, 4: Integration.four_pops, 5: Integration.five_pops}[k]
+            kw.update(ids(names))
             phi = f(phi, xx, T, theta0=theta, **kw)
         last_nu = [_size_after(a, b, kind, part / it['T']) for a, b, kind in sizes]
     fs = dadi.Spectrum.from_phi(phi, [prog['ns']] * len(names), [xx] * len(names), pop_ids=list(names))
